@@ -315,6 +315,27 @@ def gen(rng, tier):
                             k += 1
                     if c < 0x80 and (thorough or k % 3 == 0):
                         reqs.append(parse_reqs(rng, r, b"-" + alone + b"1", "i.from_str"))
+        # ---------------------------------------------------------------- parse: Unicode look-alikes
+        # valid UTF-8 scalars that case mapping / compatibility folding / `is_alphanumeric`-style classification would
+        # turn into ASCII digits or letters: KELVIN SIGN (lower-cases to k), ANGSTROM, long s (upper-cases to S),
+        # dotless i / dotted I, fullwidth, Arabic-Indic, superscript, circled, mathematical digits and letters, sharp s,
+        # ligatures.  None of them is a digit in any radix (C06-t1: `to_lowercase()` instead of ASCII folding).
+        if rnd == 0:
+            CONF = ["\u212a", "\u212b", "\u017f", "\u0131", "\u0130", "\u00df", "\ufb01", "\uff10", "\uff11", "\uff19", "\uff21", "\uff3a",
+                    "\uff41", "\uff5a", "\u0660", "\u0661", "\u0669", "\u06f5", "\u00b2", "\u00b9", "\u2070", "\u2460", "\u2160", "\u217a",
+                    "\U0001d7d8", "\U0001d7ce", "\U0001d400", "\U0001d41a", "\u0391", "\u0410", "\u0430", "\u03bf", "\u1e9e", "\u01c5",
+                    "\u00aa", "\u00ba", "\u24b6", "\u24d0", "\u0966", "\u3007", "\u4e00"]
+            k = 0
+            for r in range(2, 37):
+                for ch in CONF:
+                    c = ch.encode()
+                    for b in (c, b"1" + c + b"0", b"-" + c, c + b"_1"):
+                        k += 1
+                        if thorough or k % 2 == 0 or ch in ("\u212a", "\u017f", "\u0131", "\u0130"):
+                            reqs.append(parse_reqs(rng, r, b, ["u.from_str", "i.from_str", "u.parse_bytes", "i.parse_bytes"][k % 4]))
+            for ch in CONF:
+                reqs.append("C06 u.parse %s" % wbytes(ch.encode()))
+                reqs.append("C06 i.parse %s" % wbytes(b"-1" + ch.encode()))
         for b in FIXED_TEXTS:
             reqs.append("C06 u.parse %s" % wbytes(b)) if is_utf8(b) else None
             reqs.append("C06 i.parse %s" % wbytes(b)) if is_utf8(b) else None
